@@ -25,7 +25,13 @@ def stepOf (nacc : Nat) (s : String) : Option Step :=
   | 'r' :: rest => (acctOf nacc (String.ofList rest)).map Step.r
   | _ => none
 
-def txOf (nacc : Nat) (s : String) : Option Tx :=
+/-- a trailing `!` (executor retry: snapshot at start, run, Reset to the snapshot, run again) does
+    not change what the transaction finally observes and writes: the model ignores it -/
+def stripRetry (s : String) : String :=
+  if s.endsWith "!" then String.ofList (s.toList.dropLast) else s
+
+def txOf (nacc : Nat) (s0 : String) : Option Tx :=
+  let s := stripRetry s0
   match s.splitOn ":" with
   | [ls, ps] =>
     let reqs := if ls = "-" then some [] else (ls.splitOn ",").mapM (reqOf nacc)
